@@ -90,6 +90,8 @@ def replay_behaviours(t, wd):
                "real_err": [{"none": "ok", "RuntimeError:join-before-start": "RuntimeError", "RuntimeError:start-twice": "RuntimeError"}.get(e, e) for e in errs],
                "model_cache": b["cache"],
                "real_cache": {x: {"current": "fresh", "old": "stale", "outdated": "fresh"}.get(v, v) for x, v in r["cache_after"].items()}}
+        if r.get("stuck"):
+            break             # threads of this process now wait for each other for good: nothing more can be run here
 
 
 def replay(t):
